@@ -16,7 +16,7 @@ def templates(rnd):
     syms = [f"S{k}" for k in range(r)]
     d = rnd.choice(DT)
     num = ops.base(d) not in ("bool",)
-    k = rnd.choice(["ew2", "ew2", "reduce", "reduce", "layout", "getitem", "sort", "cumsum", "where", "program", "unique", "matmul", "concat", "allany", "roll", "take_lazyidx"])
+    k = rnd.choice(["ew2", "ew2", "ew2mixed", "ew2mixed", "reduce", "reduce", "layout", "getitem", "sort", "cumsum", "where", "program", "unique", "matmul", "concat", "allany", "roll", "take_lazyidx"])
     bc = {}   # symbol -> symbol it may broadcast against (fed 1 or equal)
     if k == "ew2":
         f = rnd.choice(["add", "subtract", "multiply", "maximum" if False else "less", "equal", "logical_and" if d == "bool" else "add"])
@@ -24,6 +24,19 @@ def templates(rnd):
         for s in ys:
             bc[s] = s[:-1]
         return f"out = ndx.{f}(x, y)", {"x": syms, "y": ys}, {"x": d, "y": d}, bc
+    if k == "ew2" and False:
+        pass
+    if k == "ew2mixed":
+        # one nullable and one non-nullable operand; either may be the one that is broadcast up
+        if not num or d.startswith("n"):
+            return None
+        f = rnd.choice(["add", "subtract", "multiply", "less", "equal"])
+        ys = [s + "b" for s in syms][rnd.randint(0, r - 1):]
+        for s in ys:
+            bc[s] = s[:-1]
+        dx, dy = rnd.choice([(d, "n" + d), ("n" + d, d)])
+        args = rnd.choice(["x, y", "y, x"])
+        return f"out = ndx.{f}({args})", {"x": syms, "y": ys}, {"x": dx, "y": dy}, bc
     if k == "reduce":
         if not num:
             return None
